@@ -262,6 +262,34 @@ theorem loopDetect_tgtC (ss : List Src) (o : Int) (h : Src.oks none o ss = true)
     loopDetect (tgtC o (lower ss)) = .ok (tgtL o ss) :=
   loopDetect_of_walk _ _ _ _ (walks ss o none h) (by simpa using remove_walked ss o none [] h AllS.nil)
 
+/-! ### sufficient syntactic conditions for the `repeat while` side condition -/
+
+theorem isRepeatWith_none (r : Ro) : isRepeatWith r none = .ok false := rfl
+
+theorem isRepeatWith_notBinary (r : Ro) (p : Int) (c : Node) (h : c.cls ≠ .binary) :
+    isRepeatWith r (some (.stmt p c)) = .ok false := by
+  cases c <;> first | (exact absurd rfl h) | rfl
+
+theorem isRepeatWithIn_leftNotConst (r : Ro) (h : ∀ op p l rr, r.cond = .binary op p l rr → l.cls ≠ .leaf .const) :
+    isRepeatWithIn r = .ok false := by
+  unfold isRepeatWithIn
+  split
+  · rename_i op p index ipos cname cp cpar a b c d hc
+    exact absurd rfl (h _ _ _ _ hc)
+  · rfl
+
+/-- a sufficient syntactic condition for a `repeat while` to be in the class: it is the first statement of its list or the
+    statement before it is not an assignment-like binary operation, and the left operand of its condition is not a constant -/
+theorem while_in_class (prev : Option Node) (o : Int) (csz : Nat) (cond : Node) (body : List Src)
+    (hb : Src.oks none (o + csz + 3) body = true)
+    (hprev : prev = none ∨ ∃ p c, prev = some (.stmt p c) ∧ c.cls ≠ .binary)
+    (hcond : ∀ op p l rr, cond = .binary op p l rr → l.cls ≠ .leaf .const) :
+    (Src.loop .while_ csz cond body).ok prev o = true := by
+  refine ok_while.2 ⟨hb, ?_, isRepeatWithIn_leftNotConst _ hcond⟩
+  rcases hprev with rfl | ⟨p, c, rfl, hc⟩
+  · rfl
+  · exact isRepeatWith_notBinary _ p c hc
+
 /-! ### the lowered skeleton is well-formed -/
 
 theorem wfs_append (a b : List P) : P.wfs (a ++ b) = (P.wfs a && P.wfs b) := by
